@@ -87,6 +87,7 @@ F_FEE_CACHED = 'C20-estimatefee-default-cached'
 F_BC_STALE = 'C20-blockcount-stale-on-error-limit'
 F_UTXO_GAP = 'C20-getutxos-cache-gap'
 F_TXS_GAP = 'C20-gettransactions-cache-gap'
+F_ORDER = 'C20-cache-order-within-block'
 
 _ENV = {}
 
@@ -189,11 +190,13 @@ class Universe(object):
         add([(i3, 150000, self.addr[0])], [(149000, spk_a1, self.addr[1])], None)
         self.by_txid = {t['txid']: n for n, t in enumerate(self.txs)}
         self.tip = base_h + 20
-        # a block holding tx0 (header fields are synthetic; the service layer does not validate them)
+        # the block at base_h: it holds tx0 and, in the universes where tx1 is mined at the same height, tx1 as well
+        # (header fields are synthetic; the service layer does not validate them)
+        self.block_txs = [n for n, t in enumerate(self.txs) if t['height'] == base_h]
         self.block = {'block_hash': sha256(b'c20-block-%d' % salt)[::-1].hex(), 'height': base_h,
                       'prev_block': sha256(b'c20-prev-%d' % salt)[::-1].hex(),
                       'merkle_root': sha256(b'c20-mr-%d' % salt).hex(), 'time': 1600000000 + salt,
-                      'bits': 0x1d00ffff - salt, 'version': 0x20000000, 'tx_count': 1}
+                      'bits': 0x1d00ffff - salt, 'version': 0x20000000, 'tx_count': len(self.block_txs)}
         self.rawblock = sha256(b'c20-rawblock-%d' % salt).hex() * 3
 
     # ---- truth about the (confirmed) chain ---------------------------------------------------------
@@ -536,9 +539,9 @@ def _answer(st, i, m, beh, args):
         if beh == 'empty':
             bd['txs'] = []
         elif parse:
-            bd['txs'] = [_lib_tx(U, 0, i)]
+            bd['txs'] = [_lib_tx(U, n, i) for n in U.block_txs]
         else:
-            bd['txs'] = [U.txs[0]['txid']]
+            bd['txs'] = [U.txs[n]['txid'] for n in U.block_txs]
         return bd
     if m == 'getrawblock':
         if beh == 'ok':
@@ -721,6 +724,9 @@ class _Run(object):
         self.m_tx = set()        # universe indices of transactions supplied by a provider (confirmed form)
         self.m_bal = {}          # address index -> balance figures legitimately in the cache
         self.m_addr_known = set()  # addresses for which a provider answered an address-level query
+        # addresses for which an 'empty' provider may have been believed ("no history") although the chain has one:
+        # what the cache then holds is consistent with what it was told, not with the chain - gap checks are off
+        self.lied_empty = set()
         self.m_blk = False
         self.m_bc_failed = None  # time of the last legitimately failed blockcount (the library remembers it for 3 s)
 
@@ -1040,7 +1046,7 @@ class _Run(object):
                 self.m_tx.add(U.by_txid[t.txid])
         elif m == 'getblock':
             if a.get('parse') and e['beh'] == 'ok':
-                self.m_tx.add(0)
+                self.m_tx.update(U.block_txs)
             self.m_blk = True
 
     def bookkeeping(self, m, rnd, matched):
@@ -1210,6 +1216,8 @@ class _Run(object):
                               'after %d cached) is not the answer of an acceptable provider %r; %s' %
                               (what, len(tail), n_cached, [(e['i'], len(e['val'])) for e in cands], desc))
                     return
+                if not tail and any(e['beh'] == 'empty' for e in cands) and U.history(a['addr']):
+                    self.lied_empty.add(a['addr'])
             elif tail:
                 raise HarnessError('fresh rows without a provider round')
             elif not head and a.get('limit', 20) > 0:
@@ -1230,11 +1238,16 @@ class _Run(object):
                 except Exception as e:
                     self.disc('cache.getutxos.differs', '%s: unusable cached rows: %r' % (what, e))
                     return
-                if got != truth[:len(got)]:
+                if got != truth[:len(got)] and a['addr'] in self.lied_empty:
+                    ctx.klass('gap-check-off.empty-provider-believed')
+                elif got != truth[:len(got)]:
                     kf = None
                     if _is_subsequence(got, truth) and all(g[0] in self.m_tx for g in got) and \
                             all(u[0] not in self.m_tx for u in truth[:truth.index(got[-1])] if u not in got):
                         kf = F_UTXO_GAP
+                    elif sorted(got) == sorted(truth[:len(got)]) and \
+                            all(U.txs[g[0]]['height'] == U.txs[h[0]]['height'] for g, h in zip(got, truth)):
+                        kf = F_ORDER
                     self.disc('cache.getutxos.gap', '%s: cached rows %r + provider answer %r: not a gap-free run of '
                               'the unspent outputs %r of the chain (transactions in cache: %r); %s' %
                               (what, got, [(u['txid'][:8], u['output_n']) for u in tail], truth, sorted(self.m_tx),
@@ -1258,11 +1271,17 @@ class _Run(object):
                 except Exception as e:
                     self.disc('cache.gettransactions.differs', '%s: unusable cached rows: %r' % (what, e))
                     return
-                if got != hist[:len(got)]:
+                if got != hist[:len(got)] and a['addr'] in self.lied_empty:
+                    ctx.klass('gap-check-off.empty-provider-believed')
+                elif got != hist[:len(got)]:
                     kf = None
                     if _is_subsequence(got, hist) and all(g in self.m_tx for g in got) and \
                             all(n not in self.m_tx for n in hist[:hist.index(got[-1])] if n not in got):
                         kf = F_TXS_GAP
+                    elif sorted(got) == sorted(hist[:len(got)]) and \
+                            all(U.txs[g]['height'] == U.txs[h]['height'] for g, h in zip(got, hist)):
+                        # the right transactions, only those of one block in another order
+                        kf = F_ORDER
                     self.disc('cache.gettransactions.gap', '%s: cached transactions %r + provider answer (%d rows): '
                               'not a gap-free run of the address history %r (transactions in cache: %r); %s' %
                               (what, got, len(tail), hist, sorted(self.m_tx), desc), kf=kf)
@@ -1323,15 +1342,18 @@ class _Run(object):
                 self.disc('cache.getblock.differs', '%s served from cache differs from the stored block: %s' %
                           (what, _short(v)))
                 return
-            for t in txs:
-                if a.get('parse'):
-                    diff = _tx_equals_ref(t, U.txs[0], U) if 0 in self.m_tx else 'never stored'
+            got = [U.by_txid.get(t.txid if a.get('parse') else t) for t in txs]
+            if got != U.block_txs:
+                self.disc('cache.getblock.tx-differs', '%s: cached block lists transactions %r, the stored block held '
+                          '%r' % (what, got, U.block_txs),
+                          kf=F_ORDER if (None not in got and sorted(got) == U.block_txs) else None)
+                return
+            if a.get('parse'):
+                for t, n in zip(txs, got):
+                    diff = _tx_equals_ref(t, U.txs[n], U) if n in self.m_tx else 'never stored'
                     if diff:
-                        self.disc('cache.getblock.tx-differs', '%s: cached block transaction: %s' % (what, diff))
+                        self.disc('cache.getblock.tx-differs', '%s: cached block transaction %d: %s' % (what, n, diff))
                         return
-                elif t != U.txs[0]['txid']:
-                    self.disc('cache.getblock.tx-differs', '%s: cached txid list %r' % (what, txs))
-                    return
             self.served(m)
             return
 
@@ -1702,6 +1724,10 @@ PROBE_CASES = [
      'Service.gettransactions trusts the cache to hold the address history from its start: with one transaction '
      'cached by gettransaction and an address record created by getbalance, it returns the cached transaction plus '
      'the provider answer after it and omits the earlier transactions (partial history)'),
+    (F_ORDER,
+     {'beh': {'blockcount': [['ok']], 'gettransaction': [['ok']], 'gettransactions': [['ok']]}, 'cache': True, 'ignp': False, 'k': 1, 'kind': 'plan', 'max_errors': 1, 'maxp': 1, 'minp': 1, 'net': 'bitcoin', 'ops': [{'a': {'tx': 2}, 'm': 'gettransaction', 'op': 'q'}, {'a': {'addr': 0, 'after': -1, 'limit': 20}, 'm': 'gettransactions', 'op': 'q'}, {'a': {'addr': 0, 'after': -1, 'limit': 20}, 'm': 'gettransactions', 'op': 'q'}], 'prio': [1], 'rseed': 0, 'salt': 1},
+     'two transactions of one address mined in the same block, the later one cached first (gettransaction): the '
+     'cached address history lists them in the order of storing, not in the order the provider reported'),
 ]
 
 
